@@ -259,11 +259,7 @@ func check(ops []Op) *checked {
 			if expectErr {
 				exp = "an error and no change"
 			}
-			cls := op.K + "/" + operand + ":outcome"
-			if operand == "json-map" && op.usesSymbolKey() {
-				cls = op.K + "/json-map:symbol-key:outcome"
-			}
-			res.bad = &mismatch{Step: step, Class: cls, Expected: exp, Got: out.Full(),
+			res.bad = &mismatch{Step: step, Class: op.K + "/" + operand + ":outcome", Expected: exp, Got: out.Full(),
 				Note: "statement: " + src}
 			return res
 		}
@@ -653,6 +649,8 @@ func run(r *core.Run) {
 	r.Assume("UNSPECIFIED: whether a vector or byte string keeps its storage when append!/append-bytes! grows it (Go's growth policy): a view taken before " +
 		"the growth may or may not still alias the target afterwards; both are accepted, but staying is only accepted when no other value covers the cells written")
 	r.Assume("UNSPECIFIED: which spelling a map key shows after it is written again in the other spelling (lang.md: presentation only); either is accepted, then tracked")
+	r.Assume("UNSPECIFIED: the spelling under which a map decoded from JSON presents a key written into it as a symbol (it keeps every key as a string); " +
+		"either is accepted, then tracked -- name identity, values, sorted order and finite-map behaviour are checked as on any sorted-map, with both key spellings")
 	r.Assume("a quoted program literal is never modified: stable-sort returns a sorted fresh list, (slice 'vector lit ..) and (append 'vector lit ..) copy " +
 		"(stable-sort docstring, lisp/seal.go); docs/lang.md's 'Sharing' section still describes the older in-place edit of the literal and is not used as the oracle")
 	r.Assume("model rule for every non-mutating operation, whatever its arguments (including the shapes on which it has nothing to do): the result shares no mutable " +
